@@ -100,3 +100,28 @@ package pullapi
 //@   calls resolveRoute requires [C11:endpoint_rule_agrees_with_authorizer] arg1 == pullEndpointSpec(r)
 //@   ensures [C11:unauthorized_is_401] old(s.Authorize != nil && r.Method == "POST") && authzCalls == old(authzCalls) + 1 && !authzResult ==> respStatus == 401
 //@   ensures [C11:authorize_consulted_for_every_post] old(s.Authorize != nil && r.Method == "POST") ==> authzCalls == old(authzCalls) + 1
+
+// ---- C07: what the pull layer hands out is what the store returned (HTTP: base64 of the stored bytes) ----
+
+//@ func (*Server).observeDequeue
+//@   trusted
+
+//@ func (*Server).Dequeue
+//@   requires s != nil
+//@   modifies lastDequeued, lastDequeueReq
+//@   ensures [C07:items_are_the_store_items] result1 == nil ==> result0.Items == lastDequeued
+//@   ensures [C05:batch_capped] (params.Batch <= 0 ==> lastDequeueReq.Batch == 1) && (s.MaxBatch > 0 ==> lastDequeueReq.Batch <= s.MaxBatch) && lastDequeueReq.Batch >= 1
+//@   ensures [C03:lease_ttl_capped] s.MaxLeaseTTL > 0 ==> lastDequeueReq.LeaseTTL <= s.MaxLeaseTTL
+//@   ensures [C11:addressed_route_and_target_only] lastDequeueReq.Route == route && lastDequeueReq.Target == s.Target
+//@   ensures [C04:store_failure_is_503] result1 != nil ==> result1.StatusCode == 503
+
+//@ func (*Server).handleDequeue
+//@   requires s != nil && r != nil && w != nil
+//@   modifies *
+//@   loop 1 invariant [encoded_so_far] rangeindex < len(outcome.Items) && len(out.Items) == rangeindex + 1 && forall k int :: 0 <= k && k < len(out.Items) ==> out.Items[k].PayloadB64 == b64Of(outcome.Items[k].Payload) && out.Items[k].Headers == outcome.Items[k].Headers && out.Items[k].ID == outcome.Items[k].ID && out.Items[k].LeaseID == outcome.Items[k].LeaseID && out.Items[k].Attempt == outcome.Items[k].Attempt && out.Items[k].Route == outcome.Items[k].Route
+//@   calls encoding/json.(*Encoder).Encode requires [C07:response_carries_every_item_with_base64_of_its_stored_payload_and_its_stored_headers] len(out.Items) == len(outcome.Items) && outcome.Items == lastDequeued && forall k int :: 0 <= k && k < len(out.Items) ==> out.Items[k].PayloadB64 == b64Of(lastDequeued[k].Payload) && out.Items[k].Headers == lastDequeued[k].Headers && out.Items[k].ID == lastDequeued[k].ID && out.Items[k].LeaseID == lastDequeued[k].LeaseID
+//@ func decodeJSONBodyStrict
+//@   trusted
+//@   modifies dequeueRequest.*, leaseRequest.*, respStatus, maps(http.Header)
+//@ func parseDuration
+//@   trusted
